@@ -78,6 +78,29 @@ theorem mem_requoteNfkc {s : Str} {d : Char} (h : d ∈ requoteNfkc s) :
   · exact Or.inr ⟨_, hd⟩
   · simp only [List.mem_singleton] at hd; subst hd; exact Or.inl hc
 
+theorem mem_render_escOfByte {bs : List UInt8} {d : Char} (h : d ∈ render (bs.map escOfByte)) :
+    d = '%' ∨ isHexDigit d = true := by
+  induction bs with
+  | nil => simp [render] at h
+  | cons b r ih =>
+    have hb := b.toNat_lt
+    have q1 := isHexDigit_hexDigitUpper (b.toNat / 16) (by omega)
+    have q2 := isHexDigit_hexDigitUpper (b.toNat % 16) (by omega)
+    simp only [List.map_cons, render_cons, escOfByte, renderTok, List.cons_append,
+      List.nil_append, List.mem_cons] at h
+    rcases h with rfl | rfl | rfl | h
+    · exact Or.inl rfl
+    · exact Or.inr q1
+    · exact Or.inr q2
+    · exact ih h
+
+/-- every character of the result is a character of the input, a `%` or a hex digit -/
+theorem mem_requoteNfkc_cases {s : Str} {d : Char} (h : d ∈ requoteNfkc s) :
+    d ∈ s ∨ d = '%' ∨ isHexDigit d = true := by
+  rcases mem_requoteNfkc h with h | ⟨bs, h⟩
+  · exact Or.inl h
+  · exact Or.inr (mem_render_escOfByte h)
+
 /-- no raw character of the table is left -/
 theorem requoteNfkc_no_nfkc (s : Str) : ∀ d ∈ requoteNfkc s, nfkcDelimChar d = false := by
   intro d h
